@@ -169,6 +169,19 @@ class C07(Prop):
                 c['T'] = c.pop('_force_T')
             c.pop('_force_T', None)
             c['mode_future'] = rng.choice(['rewrite', 'shuffle', 'remove'])
+            if c['market']['kind'] == 'csv' and rng.random() < 0.4:
+                # the bars of the cut day have an open but no close (yet); with the future removed they end their files
+                hit = False
+                for a in sorted(c['market']['assets']):
+                    for r in c['market']['assets'][a]:
+                        if r[0] == c['T'] and r[1] is not None:
+                            r[2] = None
+                            r[3] = None
+                            hit = True
+                if hit:
+                    c['market']['adjust'] = rng.random() < 0.3
+                    c['mode_future'] = 'remove'
+                    c['stream'] += ':open-bar-at-cut'
             c['market2'] = future_rewrite(rng, c['market'], c['T'], c['mode_future'])
             c['mode'] = 'pair'
             out.append(c)
